@@ -993,6 +993,13 @@ func checkUnguardedTypes(p *Prog, res *Result, inOwner map[*types.Var]bool) {
 			// whole-type entries
 			reason, listed = confinedFields[strings.TrimSuffix(k, "."+fv.Name())]
 		}
+		// entries whose confinement has a checkable shape are verified, not just trusted
+		if listed && strings.Contains(reason, "singleflight.Do") {
+			if site, ok := p.outsideSingleflight(fv); !ok {
+				res.bad("C19-R4", construct, p.pos(site.Pos()), "the field is listed as confined to the singleflight.Do callback, but it is accessed in "+funcName(site.Parent())+", which also runs outside that callback: concurrent requests read it while the callback writes it")
+				continue
+			}
+		}
 		switch {
 		case listed && reason != "FINDING":
 			res.ok("C19-R4", construct, pos, "confined: "+reason)
@@ -1002,6 +1009,58 @@ func checkUnguardedTypes(p *Prog, res *Result, inOwner map[*types.Var]bool) {
 			res.bad("C19-R4", construct, pos, fmt.Sprintf("a field of a type without a mutex is written after construction (%d write site(s)) and is neither accessed atomically nor listed as confined to one goroutine: potential unsynchronised shared state", len(fi.writes)))
 		}
 	}
+}
+
+// outsideSingleflight: every post-construction access of field fv happens inside a function literal passed to
+// (*singleflight.Group).Do, or in a function that runs only inside such a literal. Returns the first access that does not.
+func (p *Prog) outsideSingleflight(fv *types.Var) (ssa.Instruction, bool) {
+	inFlight := map[*ssa.Function]bool{}
+	for _, f := range p.AllFuncs {
+		for _, c := range callsIn(f) {
+			sc := c.Common().StaticCallee()
+			if sc == nil || sc.Name() != "Do" || sc.Signature.Recv() == nil || !isNamed(sc.Signature.Recv().Type(), "golang.org/x/sync/singleflight", "Group") {
+				continue
+			}
+			for _, a := range c.Common().Args {
+				for _, g := range p.funcValues(a, 0) {
+					inFlight[g] = true
+				}
+			}
+		}
+	}
+	var confined func(g *ssa.Function, d int) bool
+	confined = func(g *ssa.Function, d int) bool {
+		if inFlight[g] {
+			return true
+		}
+		if d > 4 {
+			return false
+		}
+		sites, ok := p.liftSites(g)
+		if !ok || len(sites) == 0 {
+			return false
+		}
+		for _, s := range sites {
+			if !confined(s.Parent(), d+1) {
+				return false
+			}
+		}
+		return true
+	}
+	for _, f := range p.AllFuncs {
+		for _, b := range f.Blocks {
+			for _, ins := range b.Instrs {
+				fa, ok := ins.(*ssa.FieldAddr)
+				if !ok || fieldOf(fa) != fv || isFreshObject(fa.X) {
+					continue
+				}
+				if !confined(f, 0) {
+					return ins, false
+				}
+			}
+		}
+	}
+	return nil, true
 }
 
 // lockContext builds the lock context with the lock-token types (BeginBatchWrite idiom) resolved.
